@@ -155,6 +155,24 @@ def collect() -> dict:
     return {"rows": rows, "enums": enums, "unique": len(unique)}
 
 
+def spec_slots() -> list[tuple[str, str, str]]:
+    """every `SpecificationAccessor` slot of every registered model class: (class, Python name, declaring class)"""
+    load()
+    from capellambse.model import _descriptors
+
+    rows = []
+    for cls in model_classes():
+        for name in sorted(dir(cls)):
+            try:
+                d = getattr(cls, name)
+            except Exception:
+                continue
+            if isinstance(d, _descriptors.SpecificationAccessor):
+                owner = next((k for k in cls.__mro__ if name in k.__dict__), cls)
+                rows.append((qual(cls), name, owner.__name__))
+    return rows
+
+
 def enum_ident(q: str, taken: dict) -> str:
     if q not in taken:
         base = "e_" + "".join(ch if ch.isalnum() else "_" for ch in q.rsplit(".", 1)[-1])
@@ -257,6 +275,14 @@ def generate():
     top.append("theorem podTable_wf : ∀ r ∈ podTable, r.wf = true := by\n  intro r hr\n"
                "  obtain ⟨c, hc, hrc⟩ := List.mem_flatten.mp hr\n"
                "  exact (List.all_eq_true.mp (chunks_wf c hc)) r hrc\n\n")
+    specs = spec_slots()
+    top.append("/-- every `SpecificationAccessor` slot of every registered model class: (class, Python name, declaring class).\n"
+               "The mapping behind each of them is `_Specification` (`Model/Pods.lean`, `Model/PodsSpecMap.lean`). -/\n")
+    top.append("def specSlots : List (String × String × String) := [\n"
+               + ",\n".join(f"  ({lean_str(c)}, {lean_str(n)}, {lean_str(o)})" for c, n, o in specs) + "\n]\n\n")
+    top.append("/-- a class has at most one specification slot per name, and none of them collides with a POD slot's Python name -/\n")
+    top.append("theorem specSlots_ok : (specSlots.map (fun r => (r.1, r.2.1))).Nodup ∧\n"
+               "    specSlots.all (fun r => !podTable.any (fun p => p.cls == r.1 && p.pyname == r.2.1)) = true := by decide +kernel\n\n")
     top.append(f"/-- sizes, for the evidence file -/\ndef nRows : Nat := {len(rows)}\n")
     top.append("theorem nRows_ok : podTable.length = nRows := by decide +kernel\n")
     top.append("\nend Capella.Gen.Pods\n")
@@ -265,7 +291,7 @@ def generate():
         kinds[r["kind"]] = kinds.get(r["kind"], 0) + 1
     out.append(("Pods.lean", "".join(top), {
         "rows": len(rows), "unique_descriptors": data["unique"], "classes": len({r["cls"] for r in rows}),
-        "chunks": len(chunk_names), "kinds": kinds, "obligations": 2 * len(chunk_names) + 1,
+        "chunks": len(chunk_names), "kinds": kinds, "obligations": 2 * len(chunk_names) + 2, "spec_slots": len(specs),
         "readonly": sorted({f"{r['owner']}.{r['pyname']}" for r in rows if not r["writable"]}),
     }))
     return out
